@@ -30,6 +30,8 @@ def check(rep):
     PR.rule_key(ctx, rid="C01.KEY-NONE-IFF-NO-SPLITTERS", mode="none-iff")
     PR.rule_locals_shadow_fields(ctx, "C01.FIELDS-NOT-SHADOWED", consequence="the key contains the repr of a function object, whose address differs from process to process")
     PR.rule_constant_skeleton(ctx, rid="C01.SKELETON-STATELESS")
+    PR.rule_recompile_like_fresh(ctx, "C01.RECOMPILED-LIKE-FRESH", consequence="the same field values are then assigned differently by "
+                                 "evaluators built from the same source text, depending on what each compiled before")
     rep.assume("str() of str/int/float/bool/None is locale- and process-independent (CPython)")
     rep.assume("the sly runtime is excluded from the entropy rule: it iterates the `tokens` set and keys position maps by id() "
                "while building/using tables, which changes state numbering per process but not the parse of a conflict-free grammar")
